@@ -37,12 +37,17 @@ _STMT = _re.compile(r"\b(?:export\s+)?(?:type|interface|enum|const|declare|class
 
 def has_alias_cycle(files):
     """Syntactic projection: does the alias graph (X -> alias names mentioned in its right-hand side outside of object
-    literal braces and tuple brackets, i.e. at positions that are not guarded by a constructor) have a cycle?"""
-    graph = {}
+    literal braces and tuple brackets, i.e. at positions that are not guarded by a constructor) have a cycle that a
+    requested type reaches?  (Reachability follows every mention, guarded or not; requested = mentioned in a
+    parse.buildParsers<..> call, or every alias when there is no such call.)"""
+    graph, mentions, requested = {}, {}, set()
     for _, text in files:
+        for m in _re.finditer(r"parse\.buildParsers<(.*?)>\(\)", text, _re.S):
+            requested.update(_re.findall(r"[A-Za-z_]\w*", m.group(1)))
         for m in _ALIAS.finditer(text):
             nxt = _STMT.search(text, m.end())
             rhs = text[m.end(): nxt.start() if nxt else len(text)]
+            mentions.setdefault(m.group(1), set()).update(_re.findall(r"[A-Za-z_]\w*", rhs))
             prev = None
             while prev != rhs:          # strip guarded regions
                 prev = rhs
@@ -51,16 +56,21 @@ def has_alias_cycle(files):
     names = set(graph)
     for n in graph:
         graph[n] &= names
+        mentions[n] &= names
 
-    def reach(a, seen):
-        for b in graph.get(a, ()):
+    def reach(g, a, seen):
+        for b in g.get(a, ()):
             if b in seen:
                 continue
             seen.add(b)
-            reach(b, seen)
+            reach(g, b, seen)
         return seen
 
-    return any(n in reach(n, set()) for n in graph)
+    roots = (requested & names) or names
+    live = set(roots)
+    for r in roots:
+        live |= reach(mentions, r, set())
+    return any(n in reach(graph, n, set()) for n in live)
 
 
 def line_lengths(text):
